@@ -99,6 +99,27 @@ def run(ctx):
         _, cleanup = cls.resolve('_cleanup')
         ctx.require(cleanup is not None, f'{cls.name}._cleanup not found')
         ctx.used(cleanup)
+        # an override that delegates to the inherited hook: the inherited hook is judged below, the override must reach the delegation first
+        hops = 0
+        while hops < 3:
+            hops += 1
+            deleg = [c for c in calls_in(cleanup.node) if last_attr(c) == '_cleanup' and receiver(c) == 'super()']
+            own = [c for c in calls_in(cleanup.node) if (last_attr(c) in ('put', 'send') and c.args and is_marker_tuple(c.args[0])) or
+                   (last_attr(c) == 'send_msg' and len(c.args) >= 2 and is_marker_tuple(c.args[1]))]
+            if own or not deleg:
+                break
+            go = ctx.an.cfg(cleanup, cls)
+            did = {n.id for n in go.nodes if n.stmt is not None and n.part == 'eval' and any(x is deleg[0] for x in n.calls())}
+            exits_o = {n.id for n in go.exits()}
+            p = go.find_path([go.entry], lambda n: n.id in exits_o, edge_ok=lambda e: e.kind != 'async', node_ok=lambda n: n.id not in did)
+            ctx.check('R1', f'{cleanup.short}: the override reaches the inherited clean-up (which emits the end marker) before anything else can end it', p is None, cleanup.short,
+                      'override-skips-inherited-cleanup', f'{cleanup.short} can end before it has called super()._cleanup(): no end-of-stream marker is written',
+                      where=loc(cleanup, cleanup.node), path=path_str(p or []))
+            r = ctx.prog.resolve_call(deleg[0], cleanup, cls)
+            if not (r and r[0] == 'func'):
+                break
+            cleanup = r[1]
+            ctx.used(cleanup)
         exits = {n.id for n in g.exits()}
         # ------------------------------------------------------------ R1 child-main passes _cleanup on all exits
         ev = {n.id for n in lc.cleanup_nodes}
